@@ -615,3 +615,134 @@ def closed_form_lemmas(c):
                           "rounding is covered by the bounded tier only)")
     for th in ("whitened_cov_eq", "whitened_mean_eq", "unwhitened_cov_eq", "kl_trace_eq", "kl_quad_eq", "kl_det_eq"):
         c.prove_lemma(f"lemma.{th}", "Variational.lean", th)
+
+
+# ------------------------------------------------------------------ natural parameterisation -> (mean, Cholesky factor) -------------------------
+NV = "gpytorch.variational.natural_variational_distribution"
+
+
+def _lit(rows, sort="real"):
+    """a concrete-shape tensor from explicit z3 terms (rows: list of lists, or a flat list for a vector)"""
+    if rows and isinstance(rows[0], list):
+        r, cN = len(rows), len(rows[0])
+
+        def elem(idx):
+            e = rows[r - 1][cN - 1]
+            for a in range(r - 1, -1, -1):
+                for b in range(cN - 1, -1, -1):
+                    e = z3.If(z3.And(idx[0] == a, idx[1] == b), rows[a][b], e)
+            return e
+        return VTensor([Dim([z3.IntVal(r)]), Dim([z3.IntVal(cN)])], elem, sort)
+    r = len(rows)
+
+    def elem1(idx):
+        e = rows[r - 1]
+        for a in range(r - 1, -1, -1):
+            e = z3.If(idx[0] == a, rows[a], e)
+        return e
+    return VTensor([Dim([z3.IntVal(r)])], elem1, sort)
+
+
+@case("C14", clause="natural_parameters", name="natural_to_mean_and_factor", expand=lambda ix: [(m,) for m in (1, 2)], replay=lambda *a: replay_natural(*a),
+      functions=[f"{NV}.NaturalVariationalDistribution.forward", f"{NV}._NaturalToMuVarSqrt.forward", f"{NV}._NaturalToMuVarSqrt._forward", f"{NV}._triangular_inverse"], timeout=600)
+def natural_to_mean_and_factor(c, m):
+    """q(u) of the natural parameterisation: with theta_1 = natural_vec, Theta_2 = natural_mat (symmetric, -2 Theta_2 positive definite), the returned
+    MultivariateNormal has (-2 Theta_2) Sigma = I  and  (-2 Theta_2) mu = theta_1,  i.e. covariance (-2 Theta_2)^-1 and mean Sigma theta_1.
+    Callee contracts (dependency, assumed): psd_safe_cholesky(A) returns the lower-triangular factor with positive diagonal and F F^T = A;
+    torch.linalg.solve_triangular(A, B, upper=False) returns X with A X = B.  Event size m in {1, 2} (explicit entries; nonlinear real arithmetic)."""
+    it, ctx = c.it, c.ctx
+    th = [c.real(f"theta1_{a}").t for a in range(m)]
+    Th = [[None] * m for _ in range(m)]
+    for a in range(m):
+        for b in range(a, m):
+            Th[a][b] = Th[b][a] = c.real(f"Theta2_{a}{b}").t
+    nat_vec, nat_mat = _lit(th), _lit(Th)
+    count = {"chol": 0, "solve": 0}
+
+    def ent(t, a, b):
+        return t.at([z3.IntVal(a), z3.IntVal(b)])
+
+    def chol(it_, ctx_, a, k):
+        A = a[0]
+        count["chol"] += 1
+        tag = count["chol"]
+        F = [[(z3.Real(f"chol{tag}_{r}{s_}") if s_ <= r else z3.RealVal(0)) for s_ in range(m)] for r in range(m)]
+        upper = k.get("upper", FALSE)
+        if upper is TRUE:
+            from engine.symexec import Undecided
+            raise Undecided("psd_safe_cholesky(upper=True) is not modelled")
+        for r in range(m):
+            ctx_.assume(F[r][r] > 0, "callee contract psd_safe_cholesky: positive diagonal")
+            for s_ in range(r + 1):
+                ctx_.assume(sum(F[r][q] * F[s_][q] for q in range(m)) == ent(A, r, s_), "callee contract psd_safe_cholesky: F F^T = A")
+        return _lit(F)
+
+    def solve_tri(it_, ctx_, a, k):
+        A, Bm = a[0], a[1]
+        count["solve"] += 1
+        tag = count["solve"]
+        if k.get("upper", FALSE) is TRUE:
+            from engine.symexec import Undecided
+            raise Undecided("solve_triangular(upper=True) is not modelled")
+        X = [[z3.Real(f"tsolve{tag}_{r}{s_}") for s_ in range(m)] for r in range(m)]
+        for r in range(m):
+            for s_ in range(m):
+                ctx_.assume(sum(ent(A, r, q) * X[q][s_] for q in range(m)) == ent(Bm, r, s_), "callee contract solve_triangular: A X = B")
+        return _lit(X)
+
+    it.optable["linear_operator.utils.cholesky.psd_safe_cholesky"] = chol
+    it.optable["torch.linalg.solve_triangular"] = solve_tri
+    from engine.values import VBuiltin
+    saved = []
+
+    def function_apply(it_, ctx_, vcls, name):
+        """torch.autograd.Function.apply(*args) returns what the class's forward(ctx, *args) returns (value semantics; the backward pass is C19's subject)"""
+        if name != "apply" or "torch.autograd.Function" not in " ".join(str(b) for b in vcls.info.external_bases()):
+            return None
+        fctx = Stub("autograd ctx", methods={"save_for_backward": lambda *a: (saved.append(a), NONE)[1]})
+        return VBuiltin("Function.apply", lambda it2, ctx2, a, k: it2.call(ctx2, it2.class_getattr(ctx2, vcls, "forward"), [fctx] + list(a), k))
+
+    it.attr_hooks.append(function_apply)
+    o = module_obj(c, f"{NV}.NaturalVariationalDistribution", "natural_vdist")
+    for nm, t in (("natural_vec", nat_vec), ("natural_mat", nat_mat)):
+        t.meta["is_parameter"] = True
+        o.fields["_parameters"].d[nm] = t
+    res = it.call(ctx, c.getattr(o, "forward"), [], {})
+    ok = isinstance(res, VObj) and res.cls.name == "MultivariateNormal"
+    c.prove("natural.returns_MultivariateNormal", z3.BoolVal(ok))
+    if not ok:
+        return
+    mu, cov = res.fields["loc"], res.fields["_covar"]
+    c.prove("natural.two_factorisations_one_triangular_solve", z3.BoolVal(count == {"chol": 2, "solve": 1}))
+    Sig = [[cov.at_dims([z3.IntVal(a), z3.IntVal(b)]) for b in range(m)] for a in range(m)]
+    for a in range(m):
+        for b in range(m):
+            c.prove(f"natural.covariance_is_the_inverse_of_minus_two_Theta2[{a}{b}]",
+                    sum(-2 * Th[a][q] * Sig[q][b] for q in range(m)) == (1 if a == b else 0))
+        c.prove(f"natural.mean_solves_minus_two_Theta2_mu_eq_theta1[{a}]", sum(-2 * Th[a][q] * mu.at([z3.IntVal(q)]) for q in range(m)) == th[a])
+    for a in range(m):
+        for b in range(a + 1, m):
+            c.prove(f"natural.covariance_is_symmetric[{a}{b}]", Sig[a][b] == Sig[b][a])
+
+
+def replay_natural(model, params, clause, info):
+    """the real NaturalVariationalDistribution.forward on a random positive-definite natural matrix of the case's size (and 5): covariance and mean against
+    the dense inverse"""
+    import torch
+    from gpytorch.variational import NaturalVariationalDistribution
+    torch.manual_seed(0)
+    bad = []
+    for m in sorted({int(params[0]), 5}):
+        A = torch.randn(m, m, dtype=torch.float64)
+        P = A @ A.T + m * torch.eye(m, dtype=torch.float64)
+        th = torch.randn(m, dtype=torch.float64)
+        d = NaturalVariationalDistribution(m).double()
+        d.natural_vec.data.copy_(th)
+        d.natural_mat.data.copy_(-0.5 * P)
+        q = d()
+        e1 = (q.covariance_matrix - torch.linalg.inv(P)).abs().max().item()
+        e2 = (q.mean - torch.linalg.solve(P, th)).abs().max().item()
+        if max(e1, e2) > 1e-8:
+            bad.append(f"m={m}: covariance off by {e1:.3g}, mean off by {e2:.3g}")
+    return {"violates": bool(bad), "detail": "; ".join(bad) or "real NaturalVariationalDistribution.forward returns N((-2 Theta2)^-1 theta1, (-2 Theta2)^-1)",
+            "entry": {"module": "contracts.C14_variational", "function": "replay_natural", "args": [model, list(params), clause, info]}}
